@@ -37,7 +37,8 @@ def run(sid):
     if meta.get("apply_to"):       # a change that is only meaningful against a particular commit (see meta["note"])
         d, base = scratch(sd + "/patch.diff", (meta["apply_to"],))
     else:
-        d, base = scratch(sd + ("/patch.head.diff" if os.path.exists(sd + "/patch.head.diff") else "/patch.diff"))
+        d, base = scratch(sd + ("/patch.head.diff" if os.path.exists(sd + "/patch.head.diff") else "/patch.diff"),
+                          ("HEAD", meta.get("base_commit") or BASE, BASE))
     try:
         meta["applied_to"] = base if base != "HEAD" else subprocess.run("git -C /repo log --format=%h -1", shell=True, capture_output=True, text=True).stdout.strip()
         props = [meta["breaks_property"]] if only_target else ALL
